@@ -86,6 +86,10 @@ def instances(tier, seed):
             # interval bounds are only decidable by the NLP when the horizon is a decision: always include a free-T instance
             for N in ((3,) if tier == 'quick' else (2, 3, 5)):
                 add(kind='nlp', spec=fam.with_horizon(dyn_spec(), H[2]), cfg=Cfg(methods[gi % 3][0], N=N, M=1, intg=methods[gi % 3][1] or 'rk', grid=grid_list(N)[gi], degree=2, scheme='radau'))
+    # the numeric horizon is re-declared after a first transcription (set_t0/set_T): control AND integrator grid follow the final horizon
+    for mi, (method, intg) in enumerate(methods):
+        g = [('uniform', {}), ('geometric', {'growth_factor': 2, 'local': True}), ('uniform', {'localize_T': True})][mi]
+        add(kind='nlp', spec=fam.with_horizon(dyn_spec(), (('num', Fr(1)), ('num', Fr(4)))), cfg=Cfg(method, N=3, M=2, intg=intg or 'rk', grid=g, degree=2, scheme='radau'), rehorizon=(Fr(0), Fr(2)))
     return items
 
 
@@ -242,7 +246,11 @@ def run(item):
         return run_kernel(item)
     spec, cfg = item['spec'], item['cfg']
     N, M = cfg.N, cfg.M
-    inst = Inst(spec, cfg, seed=item.get('seed', 0),
+    built = None
+    if item.get('rehorizon'):
+        from .common import rehorizon_built
+        built = rehorizon_built(spec, cfg, item['rehorizon'])
+    inst = Inst(spec, cfg, seed=item.get('seed', 0), built=built, solver=built is None,
                 extra_outputs=lambda b: [b.ocp.sample(b.ocp.t, grid='control')[1], b.ocp.sample(b.ocp.DT_control, grid='control')[1],
                                          b.ocp.sample(b.ocp.DT, grid='integrator')[1], b.ocp.sample(b.ocp.t, grid='integrator')[1]])
     z3 = inst.z3
